@@ -121,6 +121,31 @@ where
     _lifetime: PhantomData<&'a ()>,
 }
 
+#[cfg(bacon_verif)]
+impl<'a, N, D, const O: usize, T, F, B> BDF<'a, N, D, O, T, F, B>
+where
+    N: ComplexField + Copy,
+    D: Dimension,
+    T: Clone,
+    F: Derivative<N, D, T> + 'a,
+    B: BDFCoefficients<O, RealField = N::RealField>,
+    D: DimMin<D, Output = D>,
+    DefaultAllocator: Allocator<N, D>,
+    DefaultAllocator: Allocator<N, D, D>,
+{
+    /// Verification accessor: (tolerance, dt_min, dt_max, start, end) as set so far.
+    pub fn verif_params(&self) -> [Option<f64>; 5] {
+        let f = |x: &Option<N::RealField>| x.clone().map(crate::verif_hooks::to_f64);
+        [
+            f(&self.init_tolerance),
+            f(&self.init_dt_min),
+            f(&self.init_dt_max),
+            f(&self.init_time),
+            f(&self.init_end),
+        ]
+    }
+}
+
 impl<'a, N, D, const O: usize, T, F, B> IVPSolver<'a, D> for BDF<'a, N, D, O, T, F, B>
 where
     N: ComplexField + Copy,
@@ -493,6 +518,18 @@ where
     type UserData = T;
 
     fn step(&mut self) -> Step<Self::RealField, Self::Field, D, Self::Error> {
+        #[cfg(bacon_verif)]
+        crate::verif_hooks::emit(crate::verif_hooks::Snapshot {
+            kind: "bdf",
+            order: O,
+            time: crate::verif_hooks::to_f64(self.time.real()),
+            dt: crate::verif_hooks::to_f64(self.dt.real()),
+            yield_memory: self.yield_memory,
+            values_len: self.prev_values.len(),
+            values_first: self.prev_values.front().map_or(0.0, |v| crate::verif_hooks::to_f64(v.0.clone())),
+            values_last: self.prev_values.back().map_or(0.0, |v| crate::verif_hooks::to_f64(v.0.clone())),
+            derivs_len: 0,
+        });
         // If yield_memory is in [1, Order] then we have taken a runge-kutta step
         // and committed to it (i.e. determined that we are within error bounds)
         // If yield_memory is Order+1 then we have taken a runge-kutta step but haven't
